@@ -171,10 +171,92 @@ def _interp(ex, st, args, kwargs, node):
     if xa is None:
         return one(X, 0)
     cn = conc_int(xa.shape[0]) if xa.ndim == 1 else None
+    if cn is None and xa.ndim == 1:
+        W = xa.shape[0]
+        R = c.fresh_array('interp', (W,))
+        last = z3.simplify(to_int(n) - 1) if is_sym(n) else n - 1
+        X_ = lambda k: to_real(xa.elem((k,)))
+        st.assume(c.Forall(0, W, lambda k: z3.And(
+            z3.Implies(X_(k) < XP.elem((0,)), R.elem((k,)) == to_real(FP.elem((0,)))),
+            z3.Implies(X_(k) >= XP.elem((last,)), R.elem((k,)) == to_real(FP.elem((last,)))))))
+        kk, ii, jj = c.fresh('ik'), c.fresh('ii'), c.fresh('ij')
+        st.assume(z3.ForAll([kk, ii, jj], z3.Implies(
+            z3.And(0 <= kk, kk < to_int(W), 0 <= ii, ii < to_int(last), jj == ii + 1, XP.elem((ii,)) <= X_(kk), X_(kk) < XP.elem((jj,))),
+            R.elem((kk,)) == FP.elem((ii,)) + (X_(kk) - XP.elem((ii,))) * ((FP.elem((jj,)) - FP.elem((ii,))) / (XP.elem((jj,)) - XP.elem((ii,)))))))
+        c.last_interp = R
+        return st.alloc(c, R)
     if cn is None:
         raise Unsupported('np.interp over a symbolic number of points')
     vals = [one(xa.elem((k,)), k) for k in range(cn)]
     return st.alloc(c, Arr((cn,), lambda ix, vals=vals: _select(vals, ix[0]), 'real'))
+
+
+@model('builtins.slice')
+def _slice(ex, st, args, kwargs, node):
+    return ('<slice>',) + tuple(args)
+
+
+@model('numpy.repeat')
+def _repeat(ex, st, args, kwargs, node):
+    """assumed: np.repeat(a, n, axis=0) of a 2-D array with ONE row is n copies of that row"""
+    a = arr(ex, st, args[0])
+    n = args[1]
+    if a is None or a.ndim != 2 or kwargs.get('axis') != 0:
+        raise Unsupported('repeat form')
+    ex.oblige('safe.repeat_single_row', st, as_term(a.shape[0]) == 1, node)
+    return st.alloc(ex.c, Arr((n, a.shape[1]), lambda ix: a.elem((0, ix[1])), a.kind))
+
+
+@model('.reshape')
+def _reshape(ex, st, args, kwargs, node):
+    """assumed: reshape(-1, G) of an array that already has G as its last extent and one leading axis is that array"""
+    a = arr(ex, st, args[0])
+    shp = args[1:] if len(args) > 2 else shape_arg(ex, st, args[1])
+    from .engine import _same
+    if a is not None and a.ndim == 2 and len(shp) == 2 and conc_int(shp[0]) == -1:
+        if not _same(shp[1], a.shape[1]):
+            ex.oblige('safe.shape', st, as_term(shp[1]) == as_term(a.shape[1]), node)
+        return st.alloc(ex.c, Arr(a.shape, a.elem, a.kind))
+    raise Unsupported('reshape form')
+
+
+@model('scipy.interpolate.interp1d')
+def _interp1d(ex, st, args, kwargs, node):
+    """assumed: interp1d(x, y, axis=0, bounds_error=False, fill_value=(y[0], y[-1]), assume_sorted=True) for sorted x
+    (K >= 2 points, y of shape (K, G)) is the callable  f(q)[k, g] = piecewise-linear in q through (x_i, y[i, g]), equal to
+    y[0, g] below x_0 and y[K-1, g] at or above x_{K-1}"""
+    from .engine import FuncV
+    c = ex.c
+    XP, Y = arr(ex, st, args[0]), arr(ex, st, args[1])
+    if XP is None or Y is None or XP.ndim != 1 or Y.ndim != 2 or kwargs.get('axis', 0) != 0 or kwargs.get('bounds_error', True) is not False:
+        raise Unsupported('interp1d form')
+    fv = kwargs.get('fill_value')
+    if not isinstance(fv, tuple) or len(fv) != 2:
+        raise Unsupported('interp1d fill_value form')
+    K, G = XP.shape[0], Y.shape[1]
+    # with a single point scipy's interp1d returns NaN AT that point (0/0 slope): two points are a precondition
+    ex.oblige('safe.interp1d_two_points', st, to_int(K) >= 2, node)
+    if 'sorted' in ex.safety:
+        ex.oblige('safe.sorted', st, c.ForallAdj(0, _minus1(K), lambda i, j: XP.elem((i,)) <= XP.elem((j,))), node)
+    lo_fill, hi_fill = arr(ex, st, fv[0]), arr(ex, st, fv[1])
+
+    def call(ex2, st2, a2, k2, node2):
+        Q = arr(ex2, st2, a2[0])
+        W = Q.shape[0]
+        R = c.fresh_array('interp1d', (W, G))
+        last = z3.simplify(to_int(K) - 1)
+        X_ = lambda k: to_real(Q.elem((k,)))
+        st2.assume(c.Forall2((0, W), (0, G), lambda k, g: z3.And(
+            z3.Implies(X_(k) < XP.elem((0,)), R.elem((k, g)) == to_real(lo_fill.elem((g,)))),
+            z3.Implies(X_(k) >= XP.elem((last,)), R.elem((k, g)) == to_real(hi_fill.elem((g,)))))))
+        kk, gg, ii, jj = c.fresh('ik'), c.fresh('ig'), c.fresh('ii'), c.fresh('ij')
+        st2.assume(z3.ForAll([kk, gg, ii, jj], z3.Implies(
+            z3.And(0 <= kk, kk < to_int(W), 0 <= gg, gg < to_int(G), 0 <= ii, ii < last, jj == ii + 1,
+                   XP.elem((ii,)) <= X_(kk), X_(kk) < XP.elem((jj,))),
+            R.elem((kk, gg)) == Y.elem((ii, gg)) + (X_(kk) - XP.elem((ii,))) * ((Y.elem((jj, gg)) - Y.elem((ii, gg))) / (XP.elem((jj,)) - XP.elem((ii,)))))))
+        c.last_interp = R
+        return st2.alloc(c, R)
+    return FuncV('pyfunc', call)
 
 
 @model('.astype')
@@ -363,7 +445,72 @@ def _where(ex, st, args, kwargs, node):
         kind = 'real'
         return st.alloc(ex.c, Arr(T.shape, lambda ix: ex.c.If(T.elem(ix)[0], T.elem(ix)[1],
                                                             B.elem(ix[len(ix) - B.ndim:]) if B is not None else b), kind))
+    if len(args) == 1:
+        m = arr(ex, st, args[0])
+        if m is None or m.ndim != 1 or m.kind != 'bool':
+            raise Unsupported('np.where(mask) on non 1-D boolean')
+        return (st.alloc(ex.c, mask_indices(ex, st, m)),)
     raise Unsupported('np.where(mask) form')
+
+
+def mask_indices(ex, st, m):
+    """assumed: the indices of the true entries of a 1-D boolean array, in increasing order: K = their number,
+    sel: [0,K) -> [0,N) strictly increasing with m[sel(k)] true, and every true index j is hit (at position pos(j))"""
+    c = ex.c
+    N = m.shape[0]
+    cn = conc_int(N)
+    if c.mode != 'sym' and cn is not None and all(not is_sym(m.elem((j,))) for j in range(cn)):
+        idx = [j for j in range(cn) if m.elem((j,))]
+        return Arr((len(idx),), lambda ix, idx=idx: _select(idx, ix[0]) if idx else z3.IntVal(0), 'int')
+    K = c.fresh('nsel', INT)
+    sel = z3.Function('sel!%d' % next(c._fresh), INT, INT)
+    pos = z3.Function('pos!%d' % next(c._fresh), INT, INT)
+    Nt = to_int(N)
+    if c.mode == 'bmc' and cn is not None:
+        # bounded instance: quantifier free
+        st.assume(K >= 0, K <= cn)
+        tr = [m.elem((j,)) for j in range(cn)]
+        cnt = z3.Sum([z3.If(t, 1, 0) if is_sym(t) else z3.IntVal(1 if t else 0) for t in tr]) if tr else z3.IntVal(0)
+        st.assume(K == cnt)
+        for j in range(cn):
+            before = z3.Sum([z3.If(t, 1, 0) if is_sym(t) else z3.IntVal(1 if t else 0) for t in tr[:j]]) if j else z3.IntVal(0)
+            st.assume(z3.Implies(tr[j] if is_sym(tr[j]) else z3.BoolVal(bool(tr[j])), z3.And(pos(j) == before, sel(before) == j)))
+        out = Arr((K,), lambda ix, sel=sel: sel(to_int(ix[0])), 'int', inv=lambda j, pos=pos: pos(to_int(j)))
+        c.last_select = (K, sel, pos)
+        return out
+    k, k2, j = c.fresh('sk'), c.fresh('sk'), c.fresh('sj')
+    st.assume(K >= 0, K <= Nt)
+    st.assume(z3.ForAll([k], z3.Implies(z3.And(0 <= k, k < K), z3.And(0 <= sel(k), sel(k) < Nt, m.elem((sel(k),)), pos(sel(k)) == k)),
+                        patterns=[sel(k)]))
+    ka, kb = c.fresh('sk'), c.fresh('sk')
+    st.assume(z3.ForAll([ka, kb], z3.Implies(z3.And(0 <= ka, ka < kb, kb < K), sel(ka) < sel(kb)), patterns=[z3.MultiPattern(sel(ka), sel(kb))]))
+    st.assume(z3.ForAll([j], z3.Implies(z3.And(0 <= j, j < Nt, m.elem((j,))), z3.And(0 <= pos(j), pos(j) < K, sel(pos(j)) == j)),
+                        patterns=[pos(j)]))
+    c.last_select = (K, sel, pos)
+    return Arr((K,), lambda ix, sel=sel: sel(to_int(ix[0])), 'int', inv=lambda j, pos=pos: pos(to_int(j)))
+
+
+@model('.take', 'numpy.take')
+def _take(ex, st, args, kwargs, node):
+    """assumed: a.take(idx) (1-D) = a[idx]"""
+    a, idx = arr(ex, st, args[0]), arr(ex, st, args[1])
+    if a is None or idx is None or a.ndim != 1 or idx.ndim != 1 or idx.kind != 'int':
+        raise Unsupported('take form')
+    if 'index' in ex.safety:
+        ex.oblige('safe.index', st, ex.c.Forall(0, idx.shape[0], lambda i: z3.And(idx.elem((i,)) >= 0, idx.elem((i,)) < to_int(a.shape[0]))), node)
+    return st.alloc(ex.c, Arr(idx.shape, lambda ix: a.elem((idx.elem(ix),)), a.kind))
+
+
+@model('numpy.array_equal')
+def _array_equal(ex, st, args, kwargs, node):
+    """assumed: array_equal(a, b) (1-D) <=> same length and equal element by element"""
+    a, b = arr(ex, st, args[0]), arr(ex, st, args[1])
+    if a is None or b is None or a.ndim != 1 or b.ndim != 1:
+        raise Unsupported('array_equal form')
+    c = ex.c
+    from .engine import _same
+    same_len = True if _same(a.shape[0], b.shape[0]) else (as_term(a.shape[0]) == as_term(b.shape[0]))
+    return c.And(same_len, c.Forall(0, a.shape[0], lambda i: to_real(a.elem((i,))) == to_real(b.elem((i,)))))
 
 
 # ----------------------------------------------------------------------------- reductions
